@@ -1,6 +1,8 @@
-(* C09: proofs about model/Graph.v.  (Work in progress: see design.d/C09.md.) *)
+(* C09: every operation of the transaction alphabet preserves the invariant; reachable states. *)
 From Coq Require Import List NArith Bool Lia.
-From SV Require Import lib.Bytes model.Graph model.GraphInv.
+From SV Require Import lib.Bytes lib.Closure model.Graph model.GraphInv
+  proofs.GraphBase proofs.GraphNodes proofs.GraphInvP proofs.GraphPrims proofs.GraphCreate
+  proofs.GraphOps proofs.GraphLife.
 Import ListNotations.
 Open Scope N_scope.
 
@@ -12,4 +14,125 @@ Lemma apply_op_error_unchanged (s : st) (o : op) :
   (forall s', step_op o s <> Ok s') -> apply_op s o = s.
 Proof.
   unfold apply_op. intros H. destruct (step_op o s) as [s'|t|t]; [exfalso; eapply H; reflexivity | reflexivity | reflexivity].
+Qed.
+
+Lemma lax {P : Prop} : false = true -> P.
+Proof. discriminate. Qed.
+
+Lemma step_op_inv hh o s :
+  Inv hh s -> (hh = true -> protocol_hold_b s o = true) ->
+  wpg false (step_op o s) (fun s' => Inv hh s').
+Proof.
+  intros HI Hproto. destruct o; cbn [step_op].
+  - apply declare_static_files_spec; [exact HI | intros Hlax; discriminate Hlax].
+  - eapply wpg_weaken; [apply (@update_file_hashes_spec hh); [exact HI | intros Hlax; discriminate Hlax]|]. intros s' [H _]. exact H.
+  - apply define_step_spec; [exact HI | intros Hlax; discriminate Hlax].
+  - apply amend_step_spec; [exact HI | intros Hlax; discriminate Hlax].
+  - eapply wpg_weaken; [apply (@set_sstate_spec hh); [exact HI | intros Hlax; discriminate Hlax]|]. intros s' [H _]. exact H.
+  - apply reset_for_rerun_spec. exact HI.
+  - apply wpg_bind. eapply wpg_weaken; [apply (@update_file_hashes_spec hh); [exact HI | intros Hlax; discriminate Hlax]|].
+    intros s0 [I0 _]. apply wpg_bind. eapply wpg_weaken; [apply (@update_file_hashes_spec hh); [exact I0 | intros Hlax; discriminate Hlax]|].
+    intros s1 [I1 _]. apply mark_completed_spec. exact I1.
+  - apply wpg_bind. eapply wpg_weaken; [apply (@reset_for_rerun_spec hh); exact HI|].
+    intros s1 I1. eapply wpg_weaken; [apply (@set_sstate_spec hh); [apply delete_hash_inv; exact I1 | intros Hlax; discriminate Hlax]|].
+    intros s' [H _]. exact H.
+  - eapply wpg_weaken; [apply (@set_sstate_spec hh); [exact HI | intros Hlax; discriminate Hlax]|]. intros s' [H _]. exact H.
+  - eapply wpg_weaken; [apply (@mark_step_pending_spec hh); [exact HI | intros Hlax; discriminate Hlax]|]. intros s' [H _]. exact H.
+  - apply delete_detached_spec. exact HI.
+  - apply hold_spec; [exact HI | exact Hproto].
+  - apply release_spec. exact HI.
+  - apply reset_interrupted_spec. exact HI.
+Qed.
+
+Lemma apply_op_inv hh o s :
+  Inv hh s -> (hh = true -> protocol_hold_b s o = true) -> Inv hh (apply_op s o).
+Proof.
+  intros HI Hp. unfold apply_op. pose proof (step_op_inv hh o s HI Hp) as H.
+  destruct (step_op o s); [exact H | exact HI | exact HI].
+Qed.
+
+(* the full boolean invariant is preserved by every operation issued within the hold protocol *)
+Lemma inv_preserved s o :
+  inv_b s = true -> protocol_hold_b s o = true -> inv_b (apply_op s o) = true.
+Proof.
+  intros H Hp. apply inv_b_iff. apply apply_op_inv; [apply inv_b_iff; exact H | intros _; exact Hp].
+Qed.
+
+(* the core invariant (all conjuncts except "holding > 0 -> RUNNING") is preserved by every
+   operation whatsoever *)
+Lemma inv_core_preserved s o : inv_core_b s = true -> inv_core_b (apply_op s o) = true.
+Proof.
+  intros H. apply inv_core_b_iff. apply apply_op_inv; [apply inv_core_b_iff; exact H | intros Hlax; discriminate Hlax].
+Qed.
+
+Lemma inv_core_init cap : inv_core_b (init_st cap) = true.
+Proof. vm_compute. reflexivity. Qed.
+
+Lemma reachable_inv_core cap ops : inv_core_b (run_ops ops (init_st cap)) = true.
+Proof.
+  unfold run_ops. generalize (inv_core_init cap). generalize (init_st cap).
+  induction ops as [|o ops IH]; intros s Hs; cbn [fold_left]; [exact Hs|].
+  apply IH. apply inv_core_preserved. exact Hs.
+Qed.
+
+Lemma reachable_inv cap ops :
+  protocol_run_b (init_st cap) ops = true -> inv_b (run_ops ops (init_st cap)) = true.
+Proof.
+  unfold run_ops. generalize (inv_init cap). generalize (init_st cap).
+  induction ops as [|o ops IH]; intros s Hs Hp; cbn [fold_left]; [exact Hs|].
+  cbn in Hp. apply andb_true_iff in Hp. destruct Hp as [Hp1 Hp2].
+  apply IH; [apply inv_preserved; assumption | exact Hp2].
+Qed.
+
+(* every prefix *)
+Lemma reachable_inv_prefixes cap ops :
+  protocol_run_b (init_st cap) ops = true -> all_prefixes_ok inv_b (init_st cap) ops = true.
+Proof.
+  generalize (inv_init cap). generalize (init_st cap).
+  induction ops as [|o ops IH]; intros s Hs Hp; cbn [all_prefixes_ok]; rewrite Hs; [reflexivity|].
+  cbn in Hp. apply andb_true_iff in Hp. destruct Hp as [Hp1 Hp2]. cbn.
+  apply IH; [apply inv_preserved; assumption | exact Hp2].
+Qed.
+
+(* detached <-> not reachable from the root through creator links *)
+Lemma detached_iff_unreachable_core s n :
+  inv_core_b s = true -> In n (nodes s) -> (ndet n = true <-> ~ Reach (nodes s) (nk n)).
+Proof.
+  intros H Hn. apply inv_core_b_iff in H. pose proof (inv_nw _ H) as HW.
+  pose proof (attached_iff_reach _ _ HW Hn) as Hiff. destruct (ndet n); split; intros A; try congruence.
+  - intros HR. apply Hiff in HR. discriminate.
+  - exfalso. apply A. apply Hiff. reflexivity.
+Qed.
+
+(* ------------------------------------------------------------------------------------------ *)
+(* requests never raise an internal error                                                      *)
+(* ------------------------------------------------------------------------------------------ *)
+Lemma requester_facts c s : requester_b c s = true ->
+  find_node c s <> None /\ (c = root_key \/ fst c = KStep).
+Proof.
+  unfold requester_b. rewrite andb_true_iff, orb_true_iff, key_eqb_eq, kind_eqb_eq, is_some_true. tauto.
+Qed.
+
+Lemma nodup_str l : nodup_by str_eqb l = true -> NoDup l.
+Proof. apply (nodup_by_NoDup str_eqb l str_eqb_eq). Qed.
+
+Lemma requests_never_internal s o :
+  inv_b s = true -> request_ok s o = true -> is_internal (step_op o s) = false.
+Proof.
+  intros HI Hreq. apply inv_b_iff in HI.
+  assert (Hgoal : wpg true (step_op o s) (fun s' => True)).
+  { destruct o; cbn [request_ok] in Hreq; try discriminate; cbn [step_op].
+    - apply andb_true_iff in Hreq. destruct Hreq as [Hr Hn]. apply requester_facts in Hr. destruct Hr as [Hr1 Hr2].
+      eapply wpg_weaken; [|intros; exact I]. apply (@declare_static_files_spec true); [exact HI|]. intros _. split; [exact Hr1|]. split; [|apply nodup_str; exact Hn].
+      destruct Hr2 as [->|Hk]; [reflexivity | rewrite Hk; reflexivity].
+    - rewrite !andb_true_iff in Hreq. destruct Hreq as [[[Hr Hne] Ho] Hv].
+      apply requester_facts in Hr. destruct Hr as [Hr1 Hr2]. apply negb_true_iff in Hne. apply key_eqb_neq in Hne.
+      eapply wpg_weaken; [|intros; exact I]. apply (@define_step_spec true); [exact HI|]. intros _. split; [exact Hr1|]. split; [exact Hne|].
+      split; [destruct Hr2 as [->|Hk]; [reflexivity | rewrite Hk; reflexivity]|].
+      split; apply nodup_str; assumption.
+    - rewrite !andb_true_iff in Hreq. destruct Hreq as [[Hk Ho] Hv]. apply is_some_true in Hk.
+      eapply wpg_weaken; [|intros; exact I]. apply (@amend_step_spec true); [exact HI|]. intros _. split; [exact Hk|]. split; apply nodup_str; assumption.
+    - unfold hold. rewrite Hreq. cbn. exact I.
+    - unfold release. destruct (find_step label s); [|discriminate]. destruct (shold s0 =? 0); exact I. }
+  destruct (step_op o s); cbn in *; [reflexivity | reflexivity | contradiction].
 Qed.
